@@ -52,11 +52,11 @@ def step (s : St) : List String → St × String
         (s, showRats ((List.range s.N).map (expDegNode s.N s.K (matOf s.u) (matOf s.w) ds))) else (s, "nonfinite")
     | none => (s, "bad-op")
   | ["expavg", ds] => match nats? ds with
-    | some ds => if constsOk s.N ds then
+    | some ds => if sizesOk s.N ds then
         (s, showRat (expDegAvg s.N s.K (matOf s.u) (matOf s.w) ds)) else (s, "nonfinite")
     | none => (s, "bad-op")
   | ["dimseq", ds] => match nats? ds with
-    | some ds => if constsOk s.N ds then
+    | some ds => if sizesOk s.N ds then
         (s, showList "," "-" (fun (p : Nat × Rat) => toString p.1 ++ ":" ++ showRat p.2)
               (expDimSeq s.N s.K (matOf s.u) (matOf s.w) ds)) else (s, "nonfinite")
     | none => (s, "bad-op")
